@@ -558,6 +558,16 @@ def gen_c14(ch, spec):
         if name == "close" and ch.chance("wl", 0.6):
             continue        # keep closes rare so that programs get somewhere
         ops.append(op)
+    if ch.chance("wl", 0.25):
+        # two negotiation calls on one connection that overlap: the second is made while the first is suspended
+        # (gathering candidates, adding remote candidates) - what glare looks like to a connection
+        for _ in range(ch.choice("wl", [1, 1, 2])):
+            ops.insert(ch.index("wl", len(ops) + 1),
+                       {"op": "overlap", "side": ch.choice("wl", ["A", "B"]), "dt": ch.choice("wl", [0.0, 0.01, 0.5]),
+                        "first": ch.choice("wl", ["setLocal:offer", "setRemote:offer", "setLocal:implicit"]),
+                        "second": ch.choice("wl", ["setLocal:offer", "setRemote:offer", "setLocal:implicit", "createAnswer",
+                                                   "createOffer"]),
+                        "after": ch.choice("wl", [1, 1, 2, 5])})
     # a conversation skeleton in a share of runs, so that deep states are reached
     if ch.chance("wl", 0.5):
         a, b = ch.choice("wl", [("A", "B"), ("B", "A")])
@@ -656,16 +666,114 @@ class C14World(PcWorld):
             self.ep[n] = Endpoint(self, n, side_cfg)
             self.ep[n].setup()
             self.model[n] = "stable"
+        # every change of signalingState, looked at after every scheduler step, is an edge of the JSEP machine
+        self.seen_state = {n: "stable" for n in "AB"}
+        self.loop.step_hook = self.watch_states
         for op in self.ops:
             if op.get("dt"):
                 await asyncio.sleep(op["dt"])
-            await self.step(op)
+            if op["op"] == "overlap":
+                await self.overlap(op)
+            else:
+                await self.step(op)
             if self.violations:
                 break
+        self.loop.step_hook = None
         self.link_faults(self.fabric.links)
 
     def media_sections(self, text):
         return len(split_sections(text)[1])
+
+    JSEP_EDGES = {("stable", "have-local-offer"), ("stable", "have-remote-offer"), ("have-local-offer", "stable"),
+                  ("have-remote-offer", "stable")}
+
+    def watch_states(self):
+        for n in "AB":
+            ep = self.ep.get(n)
+            if ep is None:
+                continue
+            cur, prev = ep.pc.signalingState, self.seen_state[n]
+            if cur != prev:
+                self.seen_state[n] = cur
+                self.probes["signaling_transitions"] += 1
+                if cur != "closed" and (prev, cur) not in self.JSEP_EDGES and not self.violations:
+                    self.violation("C14", "signalingState-moved-along-no-JSEP-edge:%s>%s" % (prev, cur),
+                                   "%s: signalingState went from %s to %s" % (n, prev, cur))
+
+    def overlap_call(self, n, kind):
+        """-> coroutine function for one leg of an overlap, or None if the harness has no input for it."""
+        pc = self.ep[n].pc
+        peer = "B" if n == "A" else "A"
+        ppc = self.ep[peer].pc
+        if kind == "createOffer":
+            return pc.createOffer
+        if kind == "createAnswer":
+            return pc.createAnswer
+        if kind == "setLocal:implicit":
+            return pc.setLocalDescription
+        if kind == "setLocal:offer":
+            text = self.fresh_offer[n]
+            if text is None:
+                return None
+            return lambda: pc.setLocalDescription(RTCSessionDescription(sdp=text, type="offer"))
+        if kind == "setRemote:offer":
+            text = None
+            if ppc.signalingState == "have-local-offer" and ppc.localDescription is not None:
+                text = ppc.localDescription.sdp
+            elif self.fresh_offer[peer] is not None:
+                text = self.fresh_offer[peer]
+            if text is None:
+                return None
+            cur = pc.remoteDescription or pc.localDescription
+            if cur is not None:
+                have = [(x.kind, x.mid) for x in sdpmini.Sdp(cur.sdp).sections]
+                offered = [(x.kind, x.mid) for x in sdpmini.Sdp(text).sections]
+                if offered[:len(have)] != have:
+                    return None
+            return lambda: pc.setRemoteDescription(RTCSessionDescription(sdp=text, type="offer"))
+        return None
+
+    async def overlap(self, op):
+        """Two calls on one connection, the second made while the first is suspended.  Nothing is assumed about which
+        of them wins: each must return or raise InvalidStateError / ValueError, signalingState must move along JSEP
+        edges only (watch_states), and the harness re-reads its model from the connection afterwards."""
+        n = op["side"]
+        pc = self.ep[n].pc
+        if pc.signalingState == "closed" or self.model[n] == "closed":
+            return self.skip(op)
+        first, second = self.overlap_call(n, op["first"]), self.overlap_call(n, op["second"])
+        if first is None or second is None:
+            return self.skip(op)
+
+        async def run(fn):
+            return await fn()
+        t1 = self.loop.create_task(run(first), context=self.ep[n].ctx)
+        for _ in range(op.get("after", 1)):
+            await asyncio.sleep(0)
+        overlapped = not t1.done()
+        exc2, _ = await self.call(n, second)
+        try:
+            await t1
+            exc1 = None
+        except asyncio.CancelledError:
+            raise
+        except Exception as exc:  # noqa
+            exc1 = exc
+        self.probes["overlaps"] += 1
+        if overlapped:
+            self.probes["overlaps_second_call_made_while_first_suspended"] += 1
+        self.log.add("overlap", n, op["first"], op["second"], overlapped, type(exc1).__name__, type(exc2).__name__, pc.signalingState)
+        for which, exc in (("first", exc1), ("second", exc2)):
+            if exc is not None and type(exc).__name__ not in ("InvalidStateError", "ValueError", "OperationError"):
+                self.violation("C14", "overlapping-call-raised:%s" % exc_tag(exc), "%s %s of %s/%s: %r" % (
+                    n, which, op["first"], op["second"], exc))
+                return
+        # resynchronise the harness's model with what the connection decided
+        self.model[n] = pc.signalingState
+        self.fresh_offer[n] = None
+        self.fresh_answer[n] = None
+        if getattr(self, "pending_offer", None):
+            self.pending_offer.pop(n, None)
 
     async def step(self, op):
         n = op["side"]
